@@ -40,6 +40,48 @@ sd = jax.ShapeDtypeStruct
 f32 = jnp.float32
 
 
+def native_mask_replay(kind):
+    """R1: the real masked laws (real distreqx underneath) on logits with small AND very large gaps, every non-empty mask: masked entries get probability 0, the allowed ones are
+    the unmasked probabilities renormalised proportionally (ratios preserved), the mode is an allowed arg-max, log_prob agrees."""
+    def replay(model):
+        logit_sets = [np.array(v, np.float32) for v in ([0.3, -0.2, 1.1, 0.0], [40.0, 0.0, 5.0, 2.0], [-30.0, 25.0, 0.0, 24.0], [60.0, 0.0, 25.0, -5.0])]
+        for lg in logit_sets:
+            n = 4 if kind != "Bernoulli" else 3
+            lg = lg[:n]
+            for m in itertools.product([False, True], repeat=n):
+                if not any(m):
+                    continue
+                mm = jnp.asarray(m)
+                if kind == "Categorical":
+                    d = LD.Categorical(logits=jnp.asarray(lg)).mask(mm)
+                    p = np.asarray(d.distribution.probs if hasattr(d.distribution, "probs") else jnp.exp(jax.nn.log_softmax(d.logits)), np.float64)
+                    w = np.exp(lg.astype(np.float64) - lg.max()) * np.asarray(m, np.float64)
+                    exp = w / w.sum() if w.sum() > 0 else None
+                    if exp is None:    # every allowed action underflows relative to the maximum in float64: compare on the allowed logits alone
+                        la = lg.astype(np.float64)[list(m)]
+                        w2 = np.exp(la - la.max())
+                        exp = np.zeros(n)
+                        exp[list(m)] = w2 / w2.sum()
+                    la = lg.astype(np.float64).copy()
+                    la[~np.asarray(m)] = -np.inf
+                    w2 = np.exp(la - la.max())
+                    exp = w2 / w2.sum()
+                    mode = int(d.mode())
+                    ok = np.allclose(p, exp, atol=2e-6) and m[mode] and la[mode] >= la.max() - 1e-6
+                    obs = dict(probs=p.tolist(), expected=exp.tolist(), mode=mode)
+                elif kind == "Bernoulli":
+                    d = LD.Bernoulli(logits=jnp.asarray(lg)).mask(mm)
+                    p = np.asarray(jnp.exp(d.log_prob(jnp.ones((n,), jnp.int32))), np.float64)
+                    exp = np.where(np.asarray(m), 1 / (1 + np.exp(-lg.astype(np.float64))), 0.0)
+                    md = np.asarray(d.mode())
+                    ok = np.allclose(p, exp, atol=2e-6) and not np.any(md.astype(bool) & ~np.asarray(m))
+                    obs = dict(prob_of_one=p.tolist(), expected=exp.tolist(), mode=md.tolist())
+                if not ok:
+                    return dict(reproduced=True, route=f"R1 (real lerax {kind}.mask over real distreqx)", inputs=dict(logits=lg.tolist(), mask=list(m)), observed=obs)
+        return dict(reproduced=False, note="masked entries have probability 0, allowed ones are renormalised proportionally, mode allowed and maximal - also with logit gaps of 25-60 nats")
+    return replay
+
+
 def unit_mask(S):
     for n in (2, 3, 4):
         fn = "lerax.distribution.categorical:Categorical.mask"
@@ -50,7 +92,7 @@ def unit_mask(S):
         with _dx.cut():
             out = run(ctx, lambda l, mm: LD.Categorical(logits=l).mask(mm).logits, lg, m)
             kind = run(ctx, lambda l, mm: jnp.asarray(type(LD.Categorical(logits=l).mask(mm)) is LD.Categorical), lg, m)
-        S.prove(f"Categorical({n}).mask/logits", ctx, sand(*[ir.seq(out.at((k,)), z3.If(m.at((k,)), lg.at((k,)), -ir.INF)) for k in range(n)], kind.scalar()), function=fn,
+        S.prove(f"Categorical({n}).mask/logits", ctx, sand(*[ir.seq(out.at((k,)), z3.If(m.at((k,)), lg.at((k,)), -ir.INF)) for k in range(n)], kind.scalar()), function=fn, replay=native_mask_replay("Categorical"),
                 what="mask(m) is a Categorical whose logits are logits_k where allowed and -inf where masked")
     fnb = "lerax.distribution.bernoulli:Bernoulli.mask"
     S.under_contract(fnb)
@@ -59,7 +101,7 @@ def unit_mask(S):
     m = sym(ctx, "mask", sd((3,), jnp.bool_))
     with _dx.cut():
         out = run(ctx, lambda l, mm: LD.Bernoulli(logits=l).mask(mm).logits, lg, m)
-    S.prove("Bernoulli.mask/logits", ctx, sand(*[ir.seq(out.at((k,)), z3.If(m.at((k,)), lg.at((k,)), -ir.INF)) for k in range(3)]), function=fnb,
+    S.prove("Bernoulli.mask/logits", ctx, sand(*[ir.seq(out.at((k,)), z3.If(m.at((k,)), lg.at((k,)), -ir.INF)) for k in range(3)]), function=fnb, replay=native_mask_replay("Bernoulli"),
             what="masked components get logit -inf (probability of a 1 is 0), the others keep their logit")
     fnm = "lerax.distribution.multi_categorical:MultiCategorical.mask"
     S.under_contract(fnm)
@@ -117,8 +159,19 @@ def _memo(f):
 def native_masked_policy_replay(space):
     """R1: a real MLPActorCriticPolicy on this action space, every valid mask, key-less (greedy), sampled (8 keys) and action_and_value: the action never uses a masked entry."""
     def replay(model):
+        for sharp in (1.0, 60.0):
+            r = _replay(model, sharp)
+            if r.get("reproduced"):
+                return r
+        return r
+
+    def _replay(model, sharp):
         pol = _ac_policy(space)
+        if sharp != 1.0:   # a second policy with very peaked action logits (gaps of tens of nats), as a trained policy has
+            pol = eqx.tree_at(lambda p: p.action_head, pol, jax.tree.map(lambda x: x * sharp if eqx.is_inexact_array(x) else x, pol.action_head))
         obs = jnp.asarray([0.3, -0.7], f32)
+        raw_d = pol.action_head(pol.encoder(pol.observation_space.flatten_sample(obs))).distribution
+        raw = [np.asarray(d_.logits, np.float64) for d_ in _as_list(raw_d)] if not isinstance(space, MultiBinary) else None
         if isinstance(space, Discrete):
             n = int(space.n)
             masks = [m for m in itertools.product([False, True], repeat=n) if any(m)]
@@ -140,7 +193,19 @@ def native_masked_policy_replay(space):
                 acts.append((f"action_and_value(key={s})", pol.action_and_value(None, obs, key=jax.random.key(s), action_mask=mm)[1]))
             for how, a in acts:
                 if not allowed(a, m):
-                    return dict(reproduced=True, route="R1 (real MLPActorCriticPolicy)", inputs=dict(action_space=str(space), mask=list(m), mode=how), observed=dict(action=np.asarray(a).tolist()))
+                    return dict(reproduced=True, route="R1 (real MLPActorCriticPolicy)", inputs=dict(action_space=str(space), mask=list(m), mode=how, logit_scale=sharp), observed=dict(action=np.asarray(a).tolist()))
+            if isinstance(space, Discrete):
+                la = raw[0].copy()
+                la[~np.asarray(m)] = -np.inf
+                g = int(acts[0][1])
+                if la[g] < la.max() - 1e-5:
+                    return dict(reproduced=True, route="R1 (real MLPActorCriticPolicy)", inputs=dict(action_space=str(space), mask=list(m), mode="greedy", logit_scale=sharp),
+                                observed=dict(action=g, head_logits=raw[0].tolist(), best_allowed=int(np.argmax(la))))
+                _, a_s, _, lp = pol.action_and_value(None, obs, key=jax.random.key(0), action_mask=mm)
+                exp_lp = la[int(a_s)] - (la.max() + np.log(np.sum(np.exp(la - la.max()))))
+                if abs(float(lp) - exp_lp) > 1e-3 * (1 + abs(exp_lp)):
+                    return dict(reproduced=True, route="R1 (real MLPActorCriticPolicy)", inputs=dict(action_space=str(space), mask=list(m), mode="action_and_value(key=0)", logit_scale=sharp),
+                                observed=dict(action=int(a_s), reported_log_prob=float(lp), log_prob_under_the_masked_law=float(exp_lp), head_logits=raw[0].tolist()))
         return dict(reproduced=False, note=f"{len(masks)} masks x (greedy, 8 sampled, 8 action_and_value): no masked entry is ever used")
     return replay
 
